@@ -565,7 +565,7 @@ def compile (st : State) : Op → Option (List Micro)
     guard' (c.v ≤ 1 && (c.k = .M || c.k = .U) && i < len st c) [.put c none (some (.ext k)) (some (.item c i 1))]
   | .mInsertMap c w =>
     guard' (c.v ≤ 1 && w ≤ 1 && c.k = .M) (copyItems c ⟨c.k, w⟩ (len st ⟨c.k, w⟩))
-  | .mRemove c k => guard' (c.v ≤ 1 && c.k = .M) [.removeKey c (.ext k)]
+  | .mRemove c k => guard' (c.v ≤ 1 && (c.k = .M || c.k = .U)) [.removeKey c (.ext k)]
   | .mRemoveAt c i => guard' (c.v ≤ 1 && (c.k = .M || c.k = .U) && i < len st c) [.remove c i]
   | .mSet c i x => guard' (c.v ≤ 1 && (c.k = .M || c.k = .U) && i < len st c) [.assignVal c i (.ext x)]
   -- HashMap
